@@ -10,6 +10,8 @@ ASSUMPTIONS = [
 
 ALPHA = "hex:" + b"ab1.\n \xc3\xa9".hex()
 HIST = [r"a|ab", r"a.*?b", r"[a-z]+[0-9]+", r"\w+@\w+", r".*\.tx", r"(a|b)+", r"\bx", r"foo|bar", r"ab$", r"^a.*c$", r"[a-z]+", r"(\d+)-(\d+)", r".*co.*", r"(?m)^/.*\.js"]
+HIST2 = [r"(a*)(b*)", r"(x*)(y?)z?"]
+HIST3 = [r"\b[ab]+\b", r"(?m)^[ab]+", r"[ab]+\b"]
 BT = [r"(a|b)+c", r"(\w+)\s+(\w+)", r"[0-9]{1,3}", r"(a|b)*", r"^ab", r"\d\D"]
 DFA = [r"a|ab", r"a.*?b", r"[a-c]+x", r"(a|b)+c", r"\bab"]
 
@@ -22,6 +24,15 @@ def items(tier):
             out.append(mk("C13", p, "history", 2, ALPHA, mode=api_k, n=1))
             if tier != "quick":
                 out.append(mk("C13", p, "history", 2, ALPHA, mode=api_k, n=2, timeout_s=1500))
+    # two earlier calls of different kinds before a submatch call (state that one kind of search narrows and only another kind
+    # restores): capture patterns whose plain searches run on the same pooled simulator
+    for p in HIST2:
+        for api_k in ([2] if tier == "quick" else [1, 2, 5]):
+            out.append(mk("C13", p, "history", 1 if tier == "quick" else 2, ALPHA, mode=api_k, n=2, timeout_s=1500))
+    # an enumeration call (resumes at offsets > 0 on pooled state) before a boolean call
+    for p in HIST3:
+        for api_k in ([0] if tier == "quick" else [0, 1, 2]):
+            out.append(mk("C13", p, "history", 2, "hex:" + b"ab \n1".hex(), mode=api_k, n=1))
     for p in BT:
         for L in ([0, 2] if tier == "quick" else [0, 1, 2, 3]):
             for tail in ([3] if tier == "quick" else [0, 3, 8]):
